@@ -84,7 +84,8 @@ def run(c, facts, tier):
             "labels from the argument outward: %s; required: keyword label %r directly inside category label %r" % (labels, a.lit, want_cat),
             witness="%s <bad argument>  → the message would name %r" % (a.lit, labels[0] if labels else None) if not ok else None,
         )
-        cut_ok = all(x["cut"] for x in fr)
+        lastkept = max(i for i, x in enumerate(fr) if x["keep"])
+        cut_ok = all(x["cut"] for x in fr[: lastkept + 1])
         c.ob("C18.cut", a.site, a.lit, cut_ok, "blank and argument after %r are under cut_err: the error keeps its labels instead of being reset by the enclosing alt" % a.lit if cut_ok else "argument of %r is not under cut_err: on a bad argument alt() backtracks, the labels are lost and the word is reported as an unknown token" % a.lit, nontrivial=False)
     c.floor("argument-taking keywords", narg, 40)
     # C18.no-collision: labels below the keyword level never equal a category label
